@@ -26,7 +26,7 @@ func newExec(p *Program, mode string) *Exec {
 		tb: tb, prog: p,
 		L:         &Layouts{tb: tb, cache: map[string]*Layout{}, abstract: map[string]*types.Struct{}, bv: mode == "bv"},
 		heapSorts: map[string]Sort{}, notes: map[string]int{}, typeIDs: map[string]int{}, globals: map[string]*Value{},
-		frames: map[*ssa.Function]*writeSet{}, siteNames: map[ssa.Instruction]string{},
+		frames: map[*ssa.Function]*writeSet{}, frameParams: map[*ssa.Function][]*Value{}, siteNames: map[ssa.Instruction]string{},
 		constSliceArr: map[string]*Term{}, usedExterns: map[string]bool{}, boxes: map[int]*Value{},
 	}
 	ex.allocBases = map[int]bool{}
@@ -104,6 +104,16 @@ func verifyFunc(p *Program, c *FuncContract) (res *FuncResult) {
 	for _, fv := range fn.FreeVars {
 		hv, facts := ex.havoc(fv.Type(), "fv."+fv.Name())
 		ex.assume(st, facts)
+		if _, isPtr := fv.Type().Underlying().(*types.Pointer); isPtr {
+			// a captured variable is a cell of the enclosing frame: it exists and is
+			// a different cell from every other captured variable
+			ex.assume(st, ex.tb.Ne(hv.C[0], ex.refLit(0)))
+			for _, o := range fr.freeVars {
+				if types.Identical(o.T, hv.T) {
+					ex.assume(st, ex.tb.Ne(hv.C[0], o.C[0]))
+				}
+			}
+		}
 		fr.freeVars = append(fr.freeVars, hv)
 	}
 	// implicit precondition: a pointer receiver is non-nil (checked at call sites)
@@ -121,6 +131,9 @@ func verifyFunc(p *Program, c *FuncContract) (res *FuncResult) {
 	env := &Env{ex: ex, st: st, vars: map[string]*Value{}, pkg: c.Pkg, contract: c}
 	for k, v := range ex.entryEnv {
 		env.vars[k] = v
+	}
+	if len(fn.FreeVars) > 0 {
+		env.fr = fr // a closure's precondition speaks about its captured variables
 	}
 	for _, r := range c.Requires {
 		ex.assume(st, ex.evalSpecBool(env, r.Expr))
@@ -146,6 +159,7 @@ func verifyFunc(p *Program, c *FuncContract) (res *FuncResult) {
 			ex.obligeSpec(r.st, "post", e.Label, cond, e, nil)
 		}
 	}
+	ex.frameObligations(c, fr, ex.oldState)
 	// vacuity guard: some return must be reachable under the contract's assumptions
 	if len(fr.rets) > 0 && ex.discover == nil {
 		var pcs []*Term
